@@ -188,13 +188,20 @@ func VerifC17Opener() {
 	maxPath := vParam("maxpath", 3)
 	opens := vParam("opens", 1)
 
-	root := "/p/r"
-	if vChoose(2) == 1 {
-		root = "/q/r"
+	// the root is named through the outside link /q -> /p (allowed), or directly
+	root := "/q/r"
+	if vParam("roots", 2) == 2 && vChoose(2) == 1 {
+		root = "/p/r"
 	}
 	o := NewOpener(root)
 	for i := 0; i < opens; i++ {
-		path := vkSymbolicPath(maxPath, vParam("deep", 1) == 1)
+		var path string
+		if i < opens-1 {
+			// warm-up opens of a sequence fill the parent-handle stack: concrete requests
+			path = []string{"d/x", "f", "d/s/y", "l/x"}[vChoose(4)]
+		} else {
+			path = vkSymbolicPath(maxPath, vParam("deep", 1) == 1)
+		}
 		f, md, err := o.OpenFile(path)
 		if err == nil {
 			vCover("opener: file opened")
